@@ -1,2 +1,47 @@
-From BFS Require Import Layers.Call Layers.HiddenList.
-Example placeholder_C15 : is_hidden [47; 104] [[47; 104]] = Some true. Proof. reflexivity. Qed.
+(** C15 — HiddenFS is transparent for everything that is not hidden. *)
+From BFS Require Import Layers.Call Layers.LayerSpec.
+From BFS Require Import Proofs.HiddenFacts.
+
+(** The call reaches the underlying filesystem with unchanged arguments
+    (Create/Open become OpenFile with os.Create's / os.Open's flags, which is
+    what os.Create / os.Open do; RemoveAll is the multi-call walk of C11). *)
+Theorem C15_transparent_single :
+  forall hs m n aux, Forall cleaned hs -> comparable hs n -> two_paths m = false ->
+  ~ below hs n ->
+  hiddenfs_call hs (mkCall m n [] aux) =
+  match m with
+  | MCreate => Fwd (mkCall MOpenFile n [] [578%Z; 438%Z])
+  | MOpen => Fwd (mkCall MOpenFile n [] [0%Z; 0%Z])
+  | MRemoveAll => Multi
+  | _ => Fwd (mkCall m n [] aux)
+  end.
+Proof. exact hiddenfs_transparent_single. Qed.
+Print Assumptions C15_transparent_single.
+
+Theorem C15_transparent_rename :
+  forall hs a b aux, Forall cleaned hs -> comparable hs a -> comparable hs b ->
+  ~ below hs a -> ~ below hs b -> ~ above_hidden hs a ->
+  hiddenfs_call hs (mkCall MRename a b aux) = Fwd (mkCall MRename a b aux).
+Proof. exact hiddenfs_transparent_rename. Qed.
+Print Assumptions C15_transparent_rename.
+
+Theorem C15_transparent_symlink :
+  forall hs t l aux, Forall cleaned hs ->
+  comparable hs l -> comparable hs (to_abs_symlink t l) ->
+  ~ below hs l -> ~ below hs (to_abs_symlink t l) ->
+  hiddenfs_call hs (mkCall MSymlink t l aux) = Fwd (mkCall MSymlink t l aux).
+Proof. exact hiddenfs_transparent_symlink. Qed.
+Print Assumptions C15_transparent_symlink.
+
+(** A name that merely shares a *string* prefix with a hidden path is not hidden. *)
+Theorem C15_sibling_not_hidden :
+  forall h n, cleaned h -> comparable [h] n -> ~ within h (clean n) -> is_hidden n [h] = Some false.
+Proof. exact sibling_not_hidden. Qed.
+Print Assumptions C15_sibling_not_hidden.
+
+(** with no hidden paths the layer is the identity on every call *)
+Theorem C15_no_hidden_identity :
+  forall m n aux, two_paths m = false -> m <> MCreate -> m <> MOpen -> m <> MRemoveAll ->
+  hiddenfs_call [] (mkCall m n [] aux) = Fwd (mkCall m n [] aux).
+Proof. exact hiddenfs_nil_identity. Qed.
+Print Assumptions C15_no_hidden_identity.
